@@ -6,6 +6,7 @@ import (
 	"sync/atomic"
 	"time"
 
+	"github.com/nautilus/gateway"
 	"github.com/nautilus/graphql"
 )
 
@@ -59,7 +60,7 @@ func (r6 c06) Run(c *Ctx, i int) CaseResult {
 	}
 	var res CaseResult
 	for k := 0; k < reps; k++ {
-		res = r6.once(c, i)
+		res = r6.once(c, i, k)
 		if len(res.Fails) > 0 || res.Skipped != "" {
 			if len(res.Fails) > 0 {
 				res.Fails[0].What += fmt.Sprintf(" (repetition %d of %d)", k+1, reps)
@@ -73,7 +74,7 @@ func (r6 c06) Run(c *Ctx, i int) CaseResult {
 	return res
 }
 
-func (c06) once(c *Ctx, i int) CaseResult {
+func (c06) once(c *Ctx, i int, rep int) CaseResult {
 	var in FedInput
 	id := ""
 	feats := map[string]bool{}
@@ -115,7 +116,14 @@ func (c06) once(c *Ctx, i int) CaseResult {
 	}
 	res := CaseResult{ID: id, Key: fmt.Sprint(in.Spec.SDLs, in.Query, in.ListLen, in.Faults, in.Barrier)}
 	before := runtime.NumGoroutine()
-	fc, err := RunFed(c, in, 20*time.Second)
+	var rec *TraceRec
+	var opts []gateway.Option
+	if rep%8 == 0 {
+		// the first of every eight repetitions is also recorded and replayed on the executor machine
+		rec = &TraceRec{}
+		opts = append(opts, gateway.WithLogger(TraceLogger{Rec: rec}))
+	}
+	fc, err := RunFed(c, in, 20*time.Second, opts...)
 	if err != nil {
 		res.Fails = append(res.Fails, Failure{Channel: "harness", Classifier: "harness-error", What: err.Error(), Input: in})
 		return res
@@ -155,6 +163,8 @@ func (c06) once(c *Ctx, i int) CaseResult {
 		res.Skipped = "plan-error"
 		return res
 	}
+	// L1: the observed execution is a run of the executor machine (whose runs all terminate, Props.C06)
+	res.Fails = append(res.Fails, TraceFails(c, rec, o, in)...)
 	// quiescence at return
 	if n := atomic.LoadInt64(&fc.Injected.InFlight); n != 0 {
 		fail("L0.quiescence", fmt.Sprintf("Execute returned while %d service calls were still running", n), nil)
